@@ -83,8 +83,8 @@ DesignOK == (ph = "ret" /\ Premise(inp)) => \A c \in Clauses(inp.op) : Holds(c, 
 (* what the unrepaired code would have produced -- kept to show the two defects in the model *)
 DesignOldWMedian == (ph = "ret" /\ inp.op = "wmedian") =>
     LET old == IF Len(inp.v) = 1 THEN Xs(inp)[1] ELSE WMedianOld(Xs(inp), Ws(inp))
-    IN Holds("wmedian_halfweight", [Rec EXCEPT !.out = FxToObs(old)])
+    IN Holds("wmedian_halfweight", [Rec EXCEPT !.out = old])
 DesignOldBiloc == (ph = "ret" /\ inp.op = "biloc") =>
     LET old == IF Len(inp.v) = 1 THEN Xs(inp)[1] ELSE BilocOld(Xs(inp))
-    IN Holds("biloc_formula", [Rec EXCEPT !.out = FxToObs(old)])
+    IN Holds("biloc_formula", [Rec EXCEPT !.out = old])
 =============================================================================
